@@ -819,6 +819,36 @@ def r_namelen(prog, R):
     r.require(n >= 2, "magnitude guards of ares_split_dns_name not recognised (%d)" % n)
 
 
+def r_optdup(prog, R):
+    r = R.rule("R-C04-OPTDUP", "the EDNS option list is reported as it stands on the wire, repeated option codes included (RFC 8914 allows several Extended DNS Error options): the OPT "
+               "parser stores each option through a primitive that never overwrites an option stored before", floor=1,
+               analysis="who-may-call: the storing callee of ares_dns_parse_rr_opt must not contain a replace-on-equal-code path (comparison of a stored element's code with the code being stored)")
+    f = prog.func("ares_dns_parse_rr_opt")
+    n = 0
+    for b, i, c in f.calls():
+        t = prog.resolve(f, c)
+        if t is None or "opt" not in t.name or not t.file.endswith("ares_dns_record.c"):
+            continue
+        pnames = {p_["n"] for p_ in t.params}
+        repl = None
+        for blk in t.blocks.values():
+            br = t.branch(blk)
+            if not br:
+                continue
+            for cc, p_ in atoms(br[0], True):
+                op, l, rr = norm_cmp(cc, p_)
+                if op == "==" and rr is not None and strip(l).get("k") == "mem" and is_var(strip(rr)) and strip(rr)["n"] in pnames and strip(l)["f"] == strip(rr)["n"]:
+                    repl = blk
+        n += 1
+        k = "fn=%s stores options through %s without replacing" % (f.name, t.name)
+        if repl is not None:
+            r.viol(k, f.name, f.loc(c["ln"]), "%s stores each wire option with %s, which looks for an element with the same code and overwrites it: wire options [15:AA, 3:nsid, 15:BB] are reported as "
+                   "[15:BB, 3:nsid] -- two options instead of three, the later value in the first one's place" % (f.name, t.name))
+        else:
+            r.ok(k, f.loc(c["ln"]))
+    r.require(n >= 1, "ares_dns_parse_rr_opt: storing call not found")
+
+
 def run(prog, R, tier):
     R.assume("tables/iana.json reproduces the IANA registries and RFC bit layouts correctly (written from the RFCs, not from the code)")
     r_bits(prog, R)
@@ -833,5 +863,6 @@ def run(prog, R, tier):
     r_zerolen(prog, R)
     r_class(prog, R)
     r_namelen(prog, R)
+    r_optdup(prog, R)
     codecrules.r_preslimit(prog, R, "R-C04-PRESLIMIT")
     codecrules.r_suffix(prog, R, "R-C04-SUFFIX")
